@@ -32,13 +32,14 @@ PtsOf(ins) ==
 Out(r) == PrintT(ToJson(r))
 
 \* first point (index into EnvSeq) where the two annotated terms differ, 0 if none;
-\* points where the left side is undefined in the value algebra are not compared
+\* points where either side is undefined in the value algebra (overflow of the exact
+\* arithmetic, an op outside it) are not compared; they are counted in `undefined`
 FirstDiff(a, b, es) ==
   LET bad == {k \in 1..Len(es) :
-                LET x == Eval(a, es[k]) IN ~HasU(x) /\ x # Eval(b, es[k])}
+                LET x == Eval(a, es[k])  y == Eval(b, es[k]) IN ~HasU(x) /\ ~HasU(y) /\ x # y}
   IN IF bad = {} THEN 0 ELSE CHOOSE k \in bad : \A j \in bad : k <= j
 
-Undefined(a, es) == Cardinality({k \in 1..Len(es) : HasU(Eval(a, es[k]))})
+Undefined(a, b, es) == Cardinality({k \in 1..Len(es) : HasU(Eval(a, es[k])) \/ HasU(Eval(b, es[k]))})
 
 JudgeDenEq(e) ==
   LET a == Ann(e.lhs)
@@ -50,7 +51,7 @@ JudgeDenEq(e) ==
      THEN Out([id |-> e.id, ok |-> FALSE, clause |-> "output_shape", lhs_out |-> a.to, rhs_out |-> b.to])
      ELSE LET es == EnvSeq(a.ti)
               k == FirstDiff(a, b, es)
-              u == Undefined(a, es)
+              u == Undefined(a, b, es)
           IN IF k = 0
              THEN Out([id |-> e.id, ok |-> TRUE, points |-> Len(es), undefined |-> u])
              ELSE Out([id |-> e.id, ok |-> FALSE, clause |-> "value", point |-> k,
